@@ -336,6 +336,41 @@ def updateTop (s : Stack) (name : Str) : Res Stack :=
   if s.names.isEmpty then .crash "IndexError"
   else .ok ⟨ensureDict s.d (s.names.dropLast ++ [name]), s.names.dropLast ++ [name]⟩
 
+/-! ### the emitters' stack discipline (`Wrapf.wrap_namespace`) -/
+
+/-- a namespace node as the Fortran emitter sees it: the splicer name `"::".join(scope_file[1:])`
+    and the nested namespaces that get a module of their own -/
+inductive NS where
+  | mk (scope : Str) (kids : List NS)
+
+mutual
+/-- `Wrapf.wrap_namespace(ns)` for a nested namespace, reduced to its splicer-stack operations:
+    classes and functions are wrapped between balanced push/pop pairs, every nested namespace is
+    entered after `_update_splicer_top(<its scope>)`, and the node's own name is restored at the end. -/
+def wrapNs (s : Stack) : NS → Res Stack
+  | .mk scope kids =>
+    match push s "class".toList with
+    | .crash e => .crash e
+    | .ok s1 =>
+      match pop s1 with
+      | .crash e => .crash e
+      | .ok s2 =>
+        match wrapKids s2 kids with
+        | .crash e => .crash e
+        | .ok s3 => updateTop s3 scope
+def wrapKids (s : Stack) : List NS → Res Stack
+  | [] => .ok s
+  | k :: ks =>
+    match k with
+    | .mk scope kk =>
+      match updateTop s scope with
+      | .crash e => .crash e
+      | .ok s1 =>
+        match wrapNs s1 (.mk scope kk) with
+        | .crash e => .crash e
+        | .ok s2 => wrapKids s2 ks
+end
+
 def joinDot : Path → Str
   | [] => []
   | [a] => a
